@@ -38,7 +38,7 @@ Theorem C08_src_transmit_tails : forall m nt te tail al,
   src_bc_tx_intent_wrapped m nt te = add64 m nt te /\
   src_bc_tx_tail_after_padding m tail te = add64 m tail te /\
   src_bc_tx_final_tail m tail al = add64 m tail al.
-Proof. intros. repeat split. Qed.
+Proof. intros. exact (conj (src_bc_tx_intent_wrapped_eq m nt te) (conj (src_bc_tx_tail_after_padding_eq m tail te) (src_bc_tx_final_tail_eq m tail al))). Qed.
 Print Assumptions C08_src_transmit_tails.
 
 (* the two guards of transmit *)
